@@ -184,3 +184,34 @@ def r5_unions(ctx):
 
 
 RULES = [r1_ownership, r2_r3_name_digest, r4_sources, r5_unions]
+
+
+def r6_payload_not_shared(ctx):
+    """C14.R6: building a node never modifies the Payload object it was given (Node.__init__ appends input names to a *copy*):
+    otherwise an already built node changes its static arguments after it was named, and re-building a program gives other names."""
+    repo = ctx.repo
+    ni = repo.func(f"{F}.Node.__init__")
+    pay = Obj(F + ".Payload", {"args": ["lit"], "kwargs": {}, "func": Atom("f")}, name="USERPAY")
+    G = "earthkit.workflows.graph.nodes"
+    n1 = Obj(G + ".Node", {"name": "parent1"}, name="IN1")
+    ip = Interp(repo, max_iter=2, inline={f"{F}.Payload.copy", f"{F}.Payload.__init__"})
+    n = 0
+    for p in ip.explore(ni, args={"payload": pay, "inputs": [n1], "num_outputs": 1, "name": None}):
+        if p.exit[0] not in ("return",):
+            continue
+        n += 1
+        up = None
+        for e in p.effects:
+            for v in list(e.data.values()) + list(e.data.get("args", []) if isinstance(e.data.get("args"), list) else []):
+                if isinstance(v, Obj) and v.name == "USERPAY":
+                    up = v
+        args_after = up.fields.get("args") if up is not None else ["lit"]
+        if args_after != ["lit"]:
+            ctx.violation("C14.R6", ni.qual, loc(ni), "caller's Payload left intact",
+                          f"Node(payload, inputs=[n1]) changes the caller's Payload: args ['lit'] -> {vkey(args_after)} (the payload must be copied deeply enough before input names are appended)")
+        else:
+            ctx.ok("C14.R6", loc(ni), "Node.__init__ leaves the caller's Payload untouched")
+    ctx.floor("C14.R6.paths", n, 1)
+
+
+RULES.append(r6_payload_not_shared)
